@@ -1,17 +1,25 @@
 ----------------------------- MODULE VerifyLin -----------------------------
-(* Linearizability of traffic / API traffic / query / reset against Verify. *)
-(* call/ret events of concurrent goroutines; the effect is a silent Lin(p)  *)
-(* step between them.  "newrun" events carry the tree of an independent run.*)
+(* Linearizability of traffic / API traffic / query / reset against Verify, *)
+(* one verifier at a time.  call/ret events of concurrent goroutines; the   *)
+(* effect is a silent Lin(p) step between them.  "newrun" events carry the  *)
+(* tree of an independent run and the leaf in focus: a query's reply is     *)
+(* compared for that verifier only.  The code locks each verifier (and each *)
+(* group) separately, and the verify and reset handlers make two calls, so  *)
+(* a query or reset that overlaps other calls is atomic per verifier, not   *)
+(* for the tree as a whole; the property asks that no failure recorded      *)
+(* before a query began is lost and none is duplicated, which per-verifier  *)
+(* linearizability gives.  The harness submits every run once per leaf.     *)
 EXTENDS Verify, Json, IOUtils, TLC
 
 Trace == ndJsonDeserialize(IOEnv.TRACE)
 Procs == {Trace[k].p : k \in {j \in DOMAIN Trace : Trace[j].ev # "newrun"}}
 
-VARIABLES l, pend
-lvars == <<vars, l, pend>>
+VARIABLES l, pend, focus
+lvars == <<vars, l, pend, focus>>
 None == [op |-> "none", lin |-> FALSE]
+All == <<0, 0>>     \* focus of a sequential history: every leaf is compared (no path contains 0)
 
-LInit == /\ l = 1 /\ pend = [p \in Procs |-> None] /\ TLCSet(1, 0)
+LInit == /\ l = 1 /\ pend = [p \in Procs |-> None] /\ focus = <<1>> /\ TLCSet(1, 0)
          /\ tree = V("expReq") /\ nops = 0
          /\ cnt = [p \in Leaves(tree, <<>>) |-> 0]
          /\ seen = [p \in Leaves(tree, <<>>) |-> FALSE]
@@ -23,6 +31,7 @@ NewRun == /\ l <= Len(Trace) /\ Trace[l].ev = "newrun"
           /\ cnt' = [p \in Leaves(Trace[l].tree, <<>>) |-> 0]
           /\ seen' = [p \in Leaves(Trace[l].tree, <<>>) |-> FALSE]
           /\ last' = [p \in Leaves(Trace[l].tree, <<>>) |-> 0]
+          /\ focus' = IF "focus" \in DOMAIN Trace[l] THEN Trace[l].focus ELSE All
           /\ l' = l + 1 /\ UNCHANGED pend
 
 Call == /\ l <= Len(Trace) /\ Trace[l].ev = "call"
@@ -30,7 +39,7 @@ Call == /\ l <= Len(Trace) /\ Trace[l].ev = "call"
         /\ pend' = [pend EXCEPT ![Trace[l].p] =
                       [op |-> Trace[l].op, phase |-> Trace[l].phase, m |-> Trace[l].m, c |-> Trace[l].c,
                        lin |-> FALSE, res |-> last]]
-        /\ l' = l + 1 /\ UNCHANGED vars
+        /\ l' = l + 1 /\ UNCHANGED <<vars, focus>>
 
 Lin(p) == /\ pend[p].op # "none" /\ ~pend[p].lin
           /\ LET q == pend[p] IN
@@ -39,7 +48,7 @@ Lin(p) == /\ pend[p].op # "none" /\ ~pend[p].lin
                  [] q.op = "query"   -> Query
                  [] q.op = "reset"   -> Reset
           /\ pend' = [pend EXCEPT ![p].lin = TRUE, ![p].res = last']
-          /\ UNCHANGED l
+          /\ UNCHANGED <<l, focus>>
 
 \* a query's reply lists, per verifier leaf, the number of errors reported
 Ret == /\ l <= Len(Trace) /\ Trace[l].ev = "ret"
@@ -49,9 +58,9 @@ Ret == /\ l <= Len(Trace) /\ Trace[l].ev = "ret"
                  /\ Len(Trace[l].out) = Cardinality(DOMAIN q.res)
                  /\ \A i \in DOMAIN Trace[l].out :
                       /\ Trace[l].out[i][1] \in DOMAIN q.res
-                      /\ q.res[Trace[l].out[i][1]] = Trace[l].out[i][2]
+                      /\ (focus = All \/ Trace[l].out[i][1] = focus) => q.res[Trace[l].out[i][1]] = Trace[l].out[i][2]
        /\ pend' = [pend EXCEPT ![Trace[l].p] = None]
-       /\ l' = l + 1 /\ UNCHANGED vars
+       /\ l' = l + 1 /\ UNCHANGED <<vars, focus>>
 
 LNext == Call \/ Ret \/ NewRun \/ \E p \in Procs : Lin(p)
 LSpec == LInit /\ [][LNext]_lvars
